@@ -66,6 +66,8 @@ let show_names l = String.concat "," (List.map string_of_int (List.sort_uniq com
 let handle line =
   match fields line with
   | ["adjust"; s] -> field_of_str (adjust_whitespace (str_of_field s))
+  | ["flush"; lvl; s] ->
+    String.concat ";" (List.map field_of_str (flush_block (nat_of_int (int_of_string lvl)) (str_of_field s)))
   | ["scope"; body] ->
     toks := List.filter (fun t -> t <> "") (String.split_on_char ' ' body);
     let code = stmts () in
